@@ -60,6 +60,80 @@ def make_scratch(tag=""):
     return d
 
 
+# ------------------------------------------------------------------------------------ per-run process state
+class ProcessState:
+    """A run stands for one fresh process of the library.  Module-level and class-level containers of every loaded hed.*
+    module (and lru_caches of its module-level functions) are recorded once - after the check has initialised itself and
+    before the first run - and put back to that content before every run and before a replay, so that nothing a run leaves
+    behind in the interpreter (a memo, a registry that grew) reaches the next run.  Without this a change that introduces
+    such state shows as non-reproducible results (exit 2) instead of a violation or nothing."""
+
+    def __init__(self):
+        import copy
+        self.items, self.caches = [], []
+        seen = set()
+        for name, m in sorted(sys.modules.items()):
+            if m is None or not (name == "hed" or name.startswith("hed.")):
+                continue
+            for attr, v in list(vars(m).items()):
+                if attr.startswith("__"):
+                    continue
+                self._note(v, seen, copy)
+                if isinstance(v, type) and getattr(v, "__module__", None) == name:
+                    for a, cv in list(vars(v).items()):
+                        if not a.startswith("__"):
+                            self._note(cv, seen, copy)
+
+    def _note(self, v, seen, copy):
+        if id(v) in seen:
+            return
+        if type(v) in (dict, list, set):
+            seen.add(id(v))
+            self.items.append((v, copy.copy(v)))
+        elif callable(getattr(v, "cache_clear", None)) and not isinstance(v, type):
+            seen.add(id(v))
+            self.caches.append(v)
+
+    def restore(self):
+        n = 0
+        for obj, val in self.items:
+            try:
+                same = len(obj) == len(val) and obj == val
+            except Exception:  # noqa - elements that do not compare
+                same = False
+            if not same:
+                n += 1
+                if type(obj) is list:
+                    obj[:] = val
+                else:
+                    obj.clear()
+                    obj.update(val)
+        for c in self.caches:
+            try:
+                c.cache_clear()
+            except Exception:  # noqa
+                pass
+        return n
+
+
+_PSTATE = {}
+
+
+def fresh_process_state(mod):
+    """Called before every execute(): initialises the check once, records the state, then restores it each time."""
+    if os.environ.get("VERIF_NO_STATE_RESET"):
+        return 0
+    if "ps" not in _PSTATE:
+        for fn in ("_init_worker", "_init"):
+            f = getattr(mod, fn, None)
+            if callable(f):
+                f()
+                break
+        _PSTATE["ps"] = ProcessState()
+        return 0
+    return _PSTATE["ps"].restore()
+
+
 # ------------------------------------------------------------------------------------ worker
 def worker_main(prop, shard, tier, master, out_path, variant, only_runs=None):
     """Executes the runs of one logical shard in this (fresh) interpreter."""
@@ -79,6 +153,9 @@ def worker_main(prop, shard, tier, master, out_path, variant, only_runs=None):
         faulthandler.dump_traceback_later(RUN_WATCHDOG_S, exit=True)
         try:
             sc = mod.generate(i, seed, tier)
+            n_restored = fresh_process_state(mod)
+            if n_restored:
+                out["probes"]["process_state_restored_before_run"] = out["probes"].get("process_state_restored_before_run", 0) + 1
             res = mod.execute(sc)
         except BaseException as e:  # noqa - harness error, never a verdict
             out["errors"].append({"run": i, "error": "".join(traceback.format_exception(e))[-4000:]})
@@ -183,6 +260,7 @@ def minimise(mod, scenario, target, budget_s=90, max_exec=400):
         try:
             cand = mod.apply_narrow(scenario, target["narrow"])
             n_exec += 1
+            fresh_process_state(mod)
             if _same_violation(mod.execute(cand), target):
                 cur = cand
         except BaseException:  # noqa
@@ -194,6 +272,7 @@ def minimise(mod, scenario, target, budget_s=90, max_exec=400):
                 break
             n_exec += 1
             try:
+                fresh_process_state(mod)
                 r = mod.execute(cand)
             except BaseException:  # noqa - a candidate the harness cannot run is simply rejected
                 continue
@@ -201,6 +280,7 @@ def minimise(mod, scenario, target, budget_s=90, max_exec=400):
                 cur = cand
                 improved = True
                 break
+    fresh_process_state(mod)
     res = mod.execute(cur)
     return cur, res, n_exec
 
@@ -214,6 +294,7 @@ def minimise_main(prop, in_path, out_path):
     v = _same_violation(res, item["violation"])
     if v is None:      # should not happen: fall back to the original
         sc = item["scenario"]
+        fresh_process_state(mod)
         res = mod.execute(sc)
         v = _same_violation(res, item["violation"]) or item["violation"]
     out = {"property": prop, "seed": item["seed"], "run": item["run"],
@@ -256,6 +337,7 @@ def replay_main(prop, path, strict=False):
         return subprocess.call(cmd, env=env, cwd=VERIF)
     mod = load_check(prop)
     faulthandler.dump_traceback_later(600, exit=True)
+    fresh_process_state(mod)
     res = mod.execute(rp["scenario"], script=rp.get("decisions"))
     v = _same_violation(res, rp["violation"])
     if v is not None:
